@@ -5,6 +5,7 @@ import (
 	"fmt"
 	"math/rand/v2"
 	"os"
+	"runtime"
 	"sync"
 	"sync/atomic"
 	"testing"
@@ -24,7 +25,7 @@ type c21Cfg struct {
 	StartGap    int    `json:"start_gap"`     // 0: sync starts at the last accepted block; k: at a block k heights ahead
 	SyncSteps   int    `json:"sync_steps"`
 	PostSteps   int    `json:"post_steps"`
-	FinishMode  string `json:"finish"`   // seq | racing
+	FinishMode  string `json:"finish"`   // seq | racing | verify-racing (the engine's Verify of a new block overlaps the finish)
 	RaceTrigger int    `json:"trigger"`  // racing: 1 = the rejections run inside a chosen chain callback of FinishStateSync, 0 = unsynchronised
 	Finalize    bool   `json:"finalize"` // decide every invalid processing block before the end
 }
@@ -309,11 +310,15 @@ func (e *engine) finish(cfg c21Cfg, racingAccept *node) {
 		e.r.Guard("FinishStateSync", e.cc.witness(), func() { err = e.vm.FinishStateSync(e.ctx, target.b, out, acc) })
 	}
 	var plan finishPlan
-	if racingAccept == nil {
+	var ov *overlapVerify
+	switch {
+	case cfg.FinishMode == "verify-racing":
+		plan, ov = e.overlapFinish(targetIdx, call)
+	case racingAccept == nil:
 		plan = e.planFinish(targetIdx)
 		e.op('F', "FinishStateSync target=%s tip=%s processing=%d", target.b, e.last.b, len(plan.proc))
 		call()
-	} else {
+	default:
 		plan = e.raceFinish(cfg, targetIdx, racingAccept, call)
 	}
 	if err != nil {
@@ -321,11 +326,174 @@ func (e *engine) finish(cfg c21Cfg, racingAccept *node) {
 		return
 	}
 	e.ready = true
-	e.judgeFinish(plan, e.chain.verifySince(v0), e.chain.acceptSince(a0))
+	calls := e.chain.verifySince(v0)
+	if ov != nil {
+		// the chain's verifications of the block issued by the overlapping Verify are judged apart
+		finishCalls := calls[:0:0]
+		for _, c := range calls {
+			if c.id == ov.n.b.id {
+				ov.calls = append(ov.calls, c)
+			} else {
+				finishCalls = append(finishCalls, c)
+			}
+		}
+		calls = finishCalls
+	}
+	e.judgeFinish(plan, calls, e.chain.acceptSince(a0))
+	if ov != nil && !e.dead {
+		e.judgeOverlap(ov)
+	}
 	e.checkLastAccepted("after FinishStateSync")
 	e.checkHealth("after FinishStateSync")
+	if ov != nil && !e.dead {
+		e.acceptOverlapped(ov)
+	}
 	if e.cfg.MaxLag > 0 {
 		e.chain.gate.setOpen(false)
+	}
+}
+
+// overlapVerify is one engine Verify of a new block issued while
+// FinishStateSync is in progress on the syncer's goroutine.
+type overlapVerify struct {
+	n      *node
+	h      *sblock
+	nv0    int
+	err    error
+	inside bool // Verify was called from inside a chain callback of the finish
+	inRev  bool // ... a callback of the re-verification phase
+	calls  []verifyCall
+}
+
+// overlapFinish realises the schedule
+//
+//	syncer:  FinishStateSync(target) [ ... chain callback k ........ ] ... returns
+//	engine:                                     Verify(new block) ............ returns
+//
+// The new block is a child of the tip or of a processing block. The engine's
+// Verify is called while the finish sits in its trigger-th chain callback
+// (2 per reprocessed block, 1 per re-verified block); the callback stays open
+// for a bounded number of short naps after the call started (a wrapper that
+// serialises Verify with the finish keeps the engine waiting until the finish
+// is over, so the callback cannot wait for Verify to return). The naps only
+// steer the schedule; every verdict is taken after both calls returned.
+func (e *engine) overlapFinish(targetIdx int, call func()) (finishPlan, *overlapVerify) {
+	plan := e.planFinish(targetIdx)
+	var parent *node
+	switch y := e.rng.IntN(100); {
+	case y < 40:
+		parent = e.last
+	case y < 80: // a block the finish will re-verify successfully
+		parent = e.pick(func(n *node) bool { return plan.expectRun[n] && !n.b.Invalid })
+	default: // any processing block (possibly one that fails or is skipped)
+		parent = e.pick(func(n *node) bool { return n.st == stProcessing })
+	}
+	if parent == nil {
+		parent = e.last
+	}
+	nb := e.parseNew(parent, e.rng.IntN(100) < 25, 0)
+	if nb == nil {
+		call()
+		return plan, nil
+	}
+	ov := &overlapVerify{n: nb, h: nb.handles[0], nv0: e.chain.notif(e.chain.nVerified, nb.b.id)}
+	ncb := 2*len(plan.reprocess) + len(plan.expectRun)
+	trigger := 0
+	if ncb > 0 {
+		trigger = 1 + e.rng.IntN(ncb)
+	}
+	e.op('F', "FinishStateSync (overlapped by the engine's Verify of %s, child of %s) target=%s reprocess=%d reverify=%d trigger=%d", nb.b, parent.b, e.accepted[targetIdx].b, len(plan.reprocess), len(plan.expectRun), trigger)
+	doVerify := func() {
+		e.r.Guard("Verify", e.cc.witness(), func() {
+			if e.rng.IntN(2) == 0 {
+				ov.err = ov.h.Verify(e.ctx)
+			} else {
+				ov.err = ov.h.VerifyWithContext(e.ctx, nil)
+			}
+		})
+	}
+	if trigger == 0 {
+		call()
+		e.stat["overlap_verify_nothing_to_hand_over"]++
+		doVerify()
+		return plan, ov
+	}
+	reached := make(chan struct{})
+	started := make(chan struct{})
+	var cnt atomic.Int32
+	e.chain.setOnCallback(func() {
+		if int(cnt.Add(1)) != trigger {
+			return
+		}
+		close(reached)
+		<-started
+		for i := 0; i < 12; i++ {
+			runtime.Gosched()
+			time.Sleep(20 * time.Microsecond)
+		}
+	})
+	done := kit.Go(call)
+	select {
+	case <-reached:
+		ov.inside = true
+		ov.inRev = trigger > 2*len(plan.reprocess)
+		close(started)
+		doVerify()
+		<-done
+		e.chain.setOnCallback(nil)
+	case <-done:
+		e.chain.setOnCallback(nil)
+		e.stat["overlap_verify_trigger_not_reached"]++
+		doVerify()
+	}
+	return plan, ov
+}
+
+// judgeOverlap: after both calls returned the VM is ready, so the engine's
+// Verify has the meaning of a normal Verify: if it succeeded, the block is
+// processing and must have been verified by the chain against its parent's
+// state (by the Verify itself after the hand-over, or by the finish if the
+// wrapper took it vacuously first).
+func (e *engine) judgeOverlap(ov *overlapVerify) {
+	nb := ov.n
+	e.stat["overlap_verify_cases"]++
+	if ov.inside {
+		e.stat["overlap_verify_inside_finish"]++
+		if ov.inRev {
+			e.stat["overlap_verify_inside_reverification"]++
+		} else {
+			e.stat["overlap_verify_inside_reprocessing"]++
+		}
+	}
+	for _, c := range ov.calls {
+		if c.parentOK && c.parentSt != nb.parent.modelState() {
+			e.cc.violation("reverify-state", "block %s issued during the hand-over was verified on a state different from its parent's", nb.b)
+		}
+	}
+	e.interpretVerify(nb, ov.h, ov.calls, ov.nv0, ov.err, false, "overlap-verify-not-reverified")
+	switch {
+	case e.dead:
+	case nb.st == stProcessing && nb.reverOK:
+		e.stat["overlap_verify_ok"]++
+	case nb.st == stKnown:
+		e.stat["overlap_verify_refused"]++
+	}
+}
+
+// acceptOverlapped: consensus can accept a valid block issued during the
+// hand-over once it is a child of the last accepted block.
+func (e *engine) acceptOverlapped(ov *overlapVerify) {
+	nb := ov.n
+	if nb.st != stProcessing || nb.b.Invalid || nb.parent != e.last || e.rng.IntN(100) >= 60 {
+		return
+	}
+	e.acceptErrKey = "accept-valid-processing-failed"
+	e.accept(nb, false)
+	e.acceptErrKey = ""
+	if !e.dead {
+		e.stat["overlap_accept_ok"]++
+		e.repairPref()
+		e.checkHealth("after accepting the block issued during the hand-over")
 	}
 }
 
@@ -511,6 +679,8 @@ func runC21Case(t testing.TB, r *kit.Run, idx int, seed [2]uint64) c20Result {
 	if rng.IntN(100) < 35 && os.Getenv("VERIF_C21_SEQ_ONLY") == "" { // diagnostic knob: sequential hand-over only
 		cfg.FinishMode = "racing"
 		cfg.RaceTrigger = min(rng.IntN(5), 1)
+	} else if rng.IntN(100) < 30 {
+		cfg.FinishMode = "verify-racing"
 	}
 	cc := &caseCtx{r: r, prop: "C21", wit: caseWitness{Case: idx, Seed: seed, Cfg: cfg}}
 	genesis := makeBlk(ids.Empty, 0, 1_000, uint64(idx), false, 0)
@@ -538,6 +708,19 @@ func runC21Case(t testing.TB, r *kit.Run, idx int, seed [2]uint64) c20Result {
 	}
 	if !e.dead {
 		var racing *node
+		if cfg.FinishMode == "verify-racing" {
+			// give the finish something to re-verify while the engine's Verify arrives
+			for i, k := 0, 1+e.rng.IntN(2); i < k && !e.dead; i++ {
+				if s := e.parseNew(e.last, e.rng.IntN(4) == 0, 0); s != nil {
+					e.verify(s)
+					if !e.dead && e.rng.IntN(2) == 0 {
+						if c := e.parseNew(s, e.rng.IntN(4) == 0, 0); c != nil {
+							e.verify(c)
+						}
+					}
+				}
+			}
+		}
 		if cfg.FinishMode == "racing" {
 			// needs an accept whose rejections can race the finish: make sure the
 			// tip has a valid child x, x has conflicting siblings (some with
@@ -614,7 +797,7 @@ func runC21Case(t testing.TB, r *kit.Run, idx int, seed [2]uint64) c20Result {
 
 func TestC21(t *testing.T) {
 	r := kit.Start(t, "C21", "exploration")
-	r.Rule("case = VM config (caches in {1,2,4,128}, async accept lag bound in {0,1,3}), VM started without state (70%) or with state and 0..3 normally executed blocks (30%), StartStateSync at the last accepted block or at a block 1..5 heights ahead, 4..39 vacuous engine actions (parse+verify valid/invalid blocks on processing/last-accepted parents, re-parse, set preference, accept 1..3 valid blocks with transitive rejection), FinishStateSync at a target anywhere between the start and the tip - from the engine thread, or (35%) concurrently with the rejections that follow an accept, run inside a uniformly chosen chain callback of the finish (or unsynchronised) - then 0..24 normal engine actions and (80%) consensus deciding every invalid processing block. " +
+	r.Rule("case = VM config (caches in {1,2,4,128}, async accept lag bound in {0,1,3}), VM started without state (70%) or with state and 0..3 normally executed blocks (30%), StartStateSync at the last accepted block or at a block 1..5 heights ahead, 4..39 vacuous engine actions (parse+verify valid/invalid blocks on processing/last-accepted parents, re-parse, set preference, accept 1..3 valid blocks with transitive rejection), FinishStateSync at a target anywhere between the start and the tip - from the engine thread, or (35%) concurrently with the rejections that follow an accept, run inside a uniformly chosen chain callback of the finish (or unsynchronised), or (~20%) overlapped by the engine's Verify of a new valid/invalid block (child of the tip or of a processing block) called from the engine thread while the finish sits in a uniformly chosen chain callback on the syncer's goroutine - then 0..24 normal engine actions and (80%) consensus deciding every invalid processing block. " +
 		"Non-trivial = the finish reprocessed accepted blocks or re-verified / skipped processing blocks; distinct = (config, action kind sequence).")
 	r.Assume(
 		"the state of a block is modelled as the hash chain H(parent state || block id); the target's state handed to FinishStateSync is the one a node that executed the chain would have",
@@ -622,6 +805,7 @@ func TestC21(t *testing.T) {
 		"health: asserted unhealthy while a block that itself failed re-verification is undecided, asserted healthy once every block that failed or was skipped because of a failed ancestor is rejected; not asserted in between and not asserted during the sync (counted)",
 		"the order of re-verification is only constrained by parents-before-children (the parent output must exist); height inversions are counted, not judged",
 		"quiescence point = VM.Shutdown (waits for the async accepter)",
+		"a Verify that overlaps FinishStateSync is judged after both returned: the VM is then ready, so a successful Verify means the block is processing and the chain must have verified it on its parent's state (during the finish or after it); a valid one that is a child of the last accepted block must be acceptable. The bounded naps that keep the finish's callback open only steer the schedule",
 	)
 	p := hooks.NewPerturb(r.Rand("hooks"))
 	p.PYield, p.PSleep, p.MaxSleep = 0.25, 0.10, 100*time.Microsecond
